@@ -29,7 +29,10 @@ def main():
             res["tests_cmd"] = a.tests; res["tests_rc"] = rc; res["tests_tail"] = out.strip().splitlines()[-1] if out.strip() else ""; res["tests_s"] = round(time.time() - t)
         outdir = a.keep_out or f"{scratch}/out"; os.makedirs(outdir, exist_ok=True)
         t = time.time()
-        rc, out = sh(f"{ROOT}/check {a.pid} --tier {a.tier}", cwd=ROOT, env=dict(os.environ, LKV_REPO_SRC=f"{repo}/src", LKV_OUT=outdir, VERIF_SEED=a.seed), timeout=7200)
+        # a private copy of the Lean project (with its build products): the check regenerates the translated models from the patched
+        # sources, which must neither touch the committed ones nor collide with another run
+        sh(f"rsync -a {ROOT}/lean/ {scratch}/lean/", cwd=ROOT)
+        rc, out = sh(f"{ROOT}/check {a.pid} --tier {a.tier}", cwd=ROOT, env=dict(os.environ, LKV_REPO_SRC=f"{repo}/src", LKV_OUT=outdir, LKV_LEAN=f"{scratch}/lean", VERIF_SEED=a.seed), timeout=7200)
         res["check_rc"] = rc; res["check_s"] = round(time.time() - t); res["check_lines"] = [l for l in out.splitlines() if l.startswith(("VIOLATION", "KNOWN-FINDING", "machinery"))][:6]
         if rc == 2: res["check_err"] = out[-800:]
         res["detected"] = (rc == 1 and any(l.startswith("VIOLATION") for l in res["check_lines"]))
@@ -39,8 +42,6 @@ def main():
             res["replay_failed"] = str((d.get("detail") or {}).get("failed"))[:400]
     finally:
         shutil.rmtree(scratch, ignore_errors=True)
-        # the check regenerated the translated models from the patched copy: put the committed ones (translated from /repo) back
-        subprocess.run(["git", "-C", ROOT, "checkout", "--", "lean/LK/Generated"], capture_output=True)
     print(json.dumps(res, indent=1))
 if __name__ == "__main__":
     main()
